@@ -51,6 +51,8 @@ pub struct RangeLine {
 
 #[derive(Clone, Debug, Default)]
 pub struct CharDefModel {
+    /// some range line lists a token that is not one of the class names
+    pub unknown_class_tokens: bool,
     pub ranges: Vec<RangeLine>,
     /// (name, invoke, group, length)
     pub categories: Vec<(String, bool, bool, u32)>,
@@ -83,8 +85,11 @@ impl CharDefModel {
                     if c.starts_with('#') {
                         break;
                     }
-                    if let Some(bits) = cat_bits(c) {
-                        cats |= bits;
+                    match cat_bits(c) {
+                        Some(bits) => cats |= bits,
+                        // not a class name (the loader's flag parser also reads some other spellings, e.g. hex
+                        // numbers, as raw bits): what such a token means is not defined by the statement
+                        None => m.unknown_class_tokens = true,
                     }
                 }
                 m.ranges.push(RangeLine { begin: b, end: e, cats });
